@@ -31,11 +31,38 @@ def constants():
         from ebpfcat import ebpfcat as eb
         c["logical_addr_inc"] = int(eb.SterilePacket.logical_addr_inc)
         c["MAX_PROGS"] = int(eb.FastEtherCat.MAX_PROGS)
+        X = eb.EtherXDP
+        c["dispatcher_minimumPacketSize"] = int(X.minimumPacketSize)
+        c["dispatcher_rate"] = int(X.rate)
+        c["dispatcher_INDEX0"] = int(X.INDEX0)
+        c["dispatcher_ethertype"] = 0x88A4
+        for nm in ("ethertype", "addr0", "cmd0", "index0", "data0"):
+            c["dispatcher_off_" + nm] = int(X.__dict__[nm].address)
     except Exception:
         pass
     try:
         from ebpfcat import ebpf
         c["FIXED_BASE"] = int(ebpf.FIXED_BASE)
+    except Exception:
+        pass
+    try:    # C20: FMMU register block, probed on the real Terminal.map_fmmu
+        c.update(_fmmu_registers(ec))
+    except Exception:
+        pass
+    try:    # C27: Valve class defaults (movingTime in whole seconds, safeState as 0/1)
+        from ebpfcat import devices as dv
+        if int(dv.Valve.movingTime) == dv.Valve.movingTime and dv.Valve.movingTime >= 0:
+            c["valve_movingTime_s"] = int(dv.Valve.movingTime)
+        c["valve_safeState"] = 1 if dv.Valve.safeState else 0
+    except Exception:
+        pass
+    try:    # C17: word addresses of the identity fields in the SII image
+        for m in ec.EEPROM:
+            c["eeprom_" + m.name] = int(m.value)
+    except Exception:
+        pass
+    try:    # C11: literals of Packet.append/assemble, probed on the real class
+        c.update(_packet_literals(ec))
     except Exception:
         pass
     return c
@@ -63,6 +90,60 @@ def regenerate(ctx=None):
         tmp.write_text(txt)
         tmp.replace(f)
     return txt
+
+
+def _fmmu_registers(ec):
+    """C20: register addresses `Terminal.map_fmmu` writes, obtained by running the real
+    context manager on a two-FMMU terminal with a recording `write` (two read mappings take
+    slot 1 then slot 0; leaving the second one writes the activate register of slot 0)."""
+    import asyncio
+    t = ec.Terminal.__new__(ec.Terminal)
+    t.fmmu_used = [None, None]
+    t.pdo_out_off, t.pdo_out_sz, t.pdo_in_off, t.pdo_in_sz = 0x1100, 2, 0x1180, 2
+    rec = []
+
+    async def write(start, *args, **kwargs):
+        rec.append(start)
+    t.write = write
+
+    async def probe():
+        a = t.map_fmmu(0x10000, False)
+        ia = await a.__aenter__()
+        b = t.map_fmmu(0x20000, False)
+        ib = await b.__aenter__()
+        await b.__aexit__(None, None, None)
+        await a.__aexit__(None, None, None)
+        return ia, ib
+    ia, ib = asyncio.run(probe())
+    if (ia, ib) != (1, 0) or len(rec) != 4:
+        raise ValueError("unexpected FMMU probe")
+    a1, a0, d0, d1 = rec
+    if not (a0 < d0 < a1 < d1 and d1 - a1 == d0 - a0):
+        raise ValueError("unexpected FMMU register layout")
+    return {"fmmu_reg_base": a0, "fmmu_reg_stride": a1 - a0, "fmmu_reg_activate": d0 - a0}
+
+
+def _packet_literals(ec):
+    """C11: the literals inside `Packet.append`/`assemble` (datagram count limit, minimum frame
+    size, pad byte), obtained by running the real class: empty datagrams are appended until the
+    count limit refuses one, and an empty packet is assembled to see the padding."""
+    P = ec.Packet
+    p = P()
+    n = 0
+    while n < 1000:
+        if p.size + P.DATAGRAM_HEADER + P.DATAGRAM_TAIL > P.MAXSIZE:
+            raise ValueError("size limit reached before the count limit")
+        try:
+            p.append(ec.ECCmd.NOP, b"", 0, 0, 0)
+        except OverflowError:
+            break
+        n += 1
+    else:
+        raise ValueError("no datagram count limit found")
+    frame = P().assemble(0)
+    if len(frame) <= P.PACKET_HEADER or len(set(frame[P.PACKET_HEADER:])) != 1:
+        raise ValueError("unexpected padding of the empty packet")
+    return {"MAX_DATAGRAMS": n, "MIN_FRAME": len(frame), "PAD_BYTE": frame[-1]}
 
 
 if __name__ == "__main__":
